@@ -129,11 +129,11 @@ pub fn machine_to_automaton(m: &Machine, names: &Names, n_rules: usize, nt: usiz
         for it in st.items.iter() {
             let c = item_core(it, n_rules)?;
             let l = lookahead_index(&it.lookahead, names, nt)?;
-            let e = map.entry(c).or_insert(0);
-            if *e & crate::lr::bit(l) != 0 {
+            let e = map.entry(c).or_insert(crate::lr::La::EMPTY);
+            if e.has(l) {
                 return Err("duplicate item in a state".into());
             }
-            *e |= crate::lr::bit(l);
+            e.insert(l);
             count += 1;
         }
         let _ = count;
